@@ -116,6 +116,9 @@ structure Caps where
   code : Option Bytes := none
   /-- `ErrorDetails.Details()`, as the canonical JSON `encoding/json` makes of it -/
   det : Option Json := none
+  /-- the value `Details()` returns cannot be encoded by `encoding/json` (a NaN, a channel, a value whose
+      `MarshalJSON` fails): `det` is then only a placeholder -/
+  detBad : Bool := false
   deriving Repr, Inhabited
 
 /-- how a layer computes `Error()` -/
@@ -471,14 +474,46 @@ def overWire (w : Wire) (status : Nat) (ct : Bytes) (body : Json) : Nat × Bytes
     else if status = 304 then (status, [], [])
     else (status, ct, [body])
 
-/-- `Context.fail` at position `pos` of the handler chain: Abort, select, format, set the
-    Content-Type, write status and body once. After the K06 repair the body is written with the
-    formatter's media type. -/
+/-- does `json.NewEncoder(&body).Encode(response.Body)` succeed? The body of each of the three formatters
+    embeds the value of the first `ErrorDetails` layer (`errors` / `details` / `meta.details`; JSON:API
+    falls back to `meta.details` when `json.Marshal(details)` fails) and otherwise only strings and
+    numbers, which always encode. -/
+def bodyEncodes (e : Err) : Bool := (findCap (fun c => c.det.map fun _ => !c.detBad) e).getD true
+
+/-- `riverrors.WithStatus(errors.New(err.Error()), response.Status)`: what `fail` formats instead when the
+    body of the first attempt cannot be encoded (K06d repair) -/
+def plainErr (stText : Nat → Bytes) (status : Nat) (e : Err) : Err := .withStatus status (.new (msgOf stText e))
+
+/-- the `errors.Response` `fail` ends up writing: the formatter's, or — when that body does not encode —
+    the formatter's answer for the error text alone under the same status -/
+def failResp (env : Env) (f : Fmt) (e : Err) : FResp :=
+  if bodyEncodes e then format env f e
+  else format env f (plainErr env.stText (format env f e).status e)
+
+/-- what the `slog.ErrorContext(…, "handler error", "error", err, …, "status", response.Status)` record
+    of `fail` carries: the text of the error handed in and the status of the first `Format` call -/
+structure LogRec where
+  error : Bytes
+  status : Nat
+  deriving Repr, DecidableEq
+
+def failLog (env : Env) (cfg : Cfg) (acceptsAnswer : Bytes) (call : Call) : LogRec :=
+  { error := msgOf env.stText call.err, status := (format env (selectFormatter cfg acceptsAnswer) call.err).status }
+
+/-- `Context.fail` at position `pos` of the handler chain: Abort, select, format, encode (with the
+    fallback), set the Content-Type, write status and body once. After the K06 repair the body is
+    written with the formatter's media type. -/
 def fail (env : Env) (cfg : Cfg) (acceptsAnswer : Bytes) (w : Wire) (pos : Nat) (call : Call) : Resp :=
   let f := selectFormatter cfg acceptsAnswer
-  let r := format env f call.err
+  let r := failResp env f call.err
   let (st, ct, bodies) := overWire w r.status r.contentType r.body
   { status := st, contentType := ct, bodies := bodies, aborted := true, entered := List.range (pos + 1) }
+
+/-- `fail` with a formatter outside the three (the `Formatter` interface is public) whose `Body` never
+    encodes: both encoding attempts fail, `fail` sets status 500 and writes no body. The chain was
+    aborted by the first statement of `fail` all the same. -/
+def failUnencodable (pos : Nat) : Resp :=
+  { status := 500, contentType := [], bodies := [], aborted := true, entered := List.range (pos + 1) }
 
 /-- `fail` after a prelude in the same handler chain: the response header map may already carry a
     Content-Type (`preCT`: set earlier by a middleware or by the failing handler itself through `c.Header`)
@@ -491,6 +526,12 @@ def fail (env : Env) (cfg : Cfg) (acceptsAnswer : Bytes) (w : Wire) (pos : Nat) 
 def failH (_preCT : Option Bytes) (_abortedBefore : Bool) (_ctxDone : Bool) (env : Env) (cfg : Cfg) (acceptsAnswer : Bytes) (w : Wire)
     (pos : Nat) (call : Call) : Resp :=
   fail env cfg acceptsAnswer w pos call
+
+/-- as shipped (K06d): when the body did not encode `fail` returned after a log line — nothing written,
+    the client got the implicit 200 with an empty body (the chain was aborted) -/
+def failAsIsK06d (env : Env) (cfg : Cfg) (acceptsAnswer : Bytes) (w : Wire) (pos : Nat) (call : Call) : Resp :=
+  if bodyEncodes call.err then fail env cfg acceptsAnswer w pos call
+  else { status := 200, contentType := [], bodies := [], aborted := true, entered := List.range (pos + 1) }
 
 /-- as shipped (K06): `c.JSON` overwrites the header with `application/json; charset=utf-8` -/
 def failAsIs (env : Env) (cfg : Cfg) (acceptsAnswer : Bytes) (w : Wire) (pos : Nat) (call : Call) : Resp :=
